@@ -193,6 +193,18 @@ def handmade(ctx, cfg, lab, peer):
         # twin: same message as a request
         if stun.is_stun_response(lab.ask(stun.msg(1, stun.gen_tid(rng, True), stun.gen_attrs(rng, 0x100)), "udp").rep):
             ctx.nontrivial("stun", m)
+        # the reply-typed message directly behind a request, in the same datagram / segment: the request is answered as if it
+        # were alone, the message behind it gets nothing of its own
+        req, _t, _k = stun.gen_request(rng, "magic_long")
+        tr = rng.choice(["udp", "tcp"])
+        if lab.identified(req, tr) == sigref.STUN and lab.identified(req + m, tr) == sigref.STUN:
+            v6 = rng.random() < 0.5          # (the answer's length depends on the address family: same family for both)
+            alone, both = lab.ask(req, tr, v6=v6).rep, lab.ask(req + m, tr, v6=v6).rep
+            ctx.stats["app_stun_coalesced"] += 1
+            ctx.nontrivial("stun_coalesced", mt, tr, len(m))
+            if alone is not None and both is not None and len(both) != len(alone):
+                ctx.violation("answered:stun", "a STUN message of type %04x placed behind a binding request in the same %s is answered too: %d bytes come back instead of %d" % (
+                    mt, "datagram" if tr == "udp" else "segment", len(both), len(alone)), observed=both.hex()[:300], expected="the answer to the request alone")
     # ---- SMB with the reply flag ------------------------------------------------------------------------------------------
     for k in ("smb1_neg", "smb1_sess", "smb2_neg", "smb2_sess"):
         req = smb.gen_request(rng, k)
@@ -205,6 +217,18 @@ def handmade(ctx, cfg, lab, peer):
         judge_app(ctx, lab, "smb", bytes(p), tr, cfg, peer)
         if lab.ask(req["payload"], tr).rep is not None:
             ctx.nontrivial("smb", k, bytes(p))
+    # the reply flag silences every command, not only the ones that have a dissector
+    for _ in range(6):
+        tr = rng.choice(["tcp", "udp"])
+        if rng.random() < 0.6:
+            cmd = rng.choice([0x75, 0x71, 0x2B, 0x25, 0xA2, 0x74, 0x32, 0x04, rng.randrange(256)])
+            body = rng.choice([smb.smb1_negotiate_body([b"NT LM 0.12"]), smb.smb1_session_setup_body(b"blob"), b"\0\0\0", b"\x07\xff\0\0\0" + bytes(12)])
+            m = smb.nbss(smb.smb1_header(cmd, flags=0x80 | rng.getrandbits(7), mid=rng.getrandbits(16), status=rng.choice([0, 0xC0000022])) + body)
+        else:
+            cmd = rng.choice([2, 3, 4, 5, 0x0B, 0x12, 0x13, rng.randrange(65536)])
+            m = smb.nbss(smb.smb2_header(cmd, flags=1 | (rng.getrandbits(3) << 1), msgid=rng.getrandbits(64), status=rng.choice([0, 0xC0000022])) + rng.choice([smb.smb2_negotiate_body([0x0202]), bytes(9), bytes(64)]))
+        judge_app(ctx, lab, "smb", m, tr, cfg, peer)
+        ctx.nontrivial("smb_reply_cmd", cmd, tr)
     # ---- RPC replies --------------------------------------------------------------------------------------------------------
     for _ in range(4):
         xid = (rng.choice([0x01, 0x7A, 0x99]) << 24) | rng.getrandbits(24)
